@@ -14,12 +14,15 @@ struct Doc { cram: bool, sub: &'static str, name: String, tests: Vec<char>, bad_
 #[derive(Clone, Debug)]
 struct Proc { flag: char, abort: char, docs: Vec<Doc> }   // flag: d default, w --work-directory, k --keep-temporary-directories; abort: - none, u unparsable main document, s unusable shell
 
-const PROBE: &str = "printf '%s|%s|%s|%s|%s|%s|%s|%s|%s|%s|%s|%s|%s|%s|%s\\n' \"@ID@\" \"$PWD\" \"$TESTDIR\" \"$TESTFILE\" \"$TMPDIR\" \"$TESTSHELL\" \"$LANG\" \"$LANGUAGE\" \"$LC_ALL\" \"$TZ\" \"$COLUMNS\" \"${CDPATH-unset}\" \"${GREP_OPTIONS-unset}\" \"${SCRUT_TEST-unset}\" \"${CRAMTMP-unset}\" >> @PROBES@; echo x > made-by-@ID@; echo y > \"$TMPDIR/t-@ID@\"; mkdir -p sub-@ID@/deep";
+const PROBE: &str = "printf '%s|%s|%s|%s|%s|%s|%s|%s|%s|%s|%s|%s|%s|%s|%s|%s\\n' \"@ID@\" \"$PWD\" \"$TESTDIR\" \"$TESTFILE\" \"$TMPDIR\" \"$TESTSHELL\" \"$LANG\" \"$LANGUAGE\" \"$LC_ALL\" \"$TZ\" \"$COLUMNS\" \"${CDPATH-unset}\" \"${GREP_OPTIONS-unset}\" \"${SCRUT_TEST-unset}\" \"${CRAMTMP-unset}\" \"$([ -d \"$TMPDIR\" ] && echo yes || echo no)\" >> @PROBES@; echo x > made-by-@ID@; mkdir -p sub-@ID@/deep";
+const TMPWRITE: &str = "; echo y > \"$TMPDIR/t-@ID@\"";
 
 fn cmd_for(kind: char, id: &str, probes: &Path) -> (String, Vec<String>, Option<&'static str>) {
     // (shell expression, expectation lines, inline config)
-    let p = PROBE.replace("@ID@", id).replace("@PROBES@", &probes.display().to_string());
+    let mut p = PROBE.replace("@ID@", id).replace("@PROBES@", &probes.display().to_string());
+    if kind != 'N' { p.push_str(&TMPWRITE.replace("@ID@", id)); }
     match kind {
+        'N' => (format!("{}; sleep 0.25; printf '%s|late|%s\\n' \"{}\" \"$([ -d \"$TMPDIR\" ] && echo yes || echo no)\" >> {}; echo foo", p, id, probes.display()), vec!["foo".into()], None),
         'P' => (format!("{}; echo foo", p), vec!["foo".into()], None),
         'O' => (format!("{}; echo foo", p), vec!["bar".into()], None),
         'C' => (format!("{}; echo foo; (exit 3)", p), vec!["foo".into()], None),
@@ -50,13 +53,13 @@ fn render(d: &Doc, pi: usize, di: usize, probes: &Path) -> String {
     s
 }
 
-fn gen_proc(r: &mut Rng, flag: char) -> Proc {
+fn gen_proc(r: &mut Rng, flag: char, quiet: bool) -> Proc {
     let ndocs = r.range(1, 3);
-    let abort = match r.below(12) { 0 => 'u', 1 => 's', _ => '-' };
+    let abort = if quiet { '-' } else { match r.below(12) { 0 => 'u', 1 => 's', _ => '-' } };
     let same_name = r.chance(1, 2);
     let mut docs = vec![];
     for i in 0..ndocs {
-        let cram = r.chance(1, 3);
+        let cram = !quiet && r.chance(1, 3);
         let sub = *r.pick(&["", "a", "b", "a/deep"]);
         let name = if same_name { format!("doc.{}", if cram { "t" } else { "md" }) } else { format!("doc{}.{}", i, if cram { "t" } else { "md" }) };
         let n = r.range(1, 3);
@@ -71,8 +74,9 @@ fn gen_proc(r: &mut Rng, flag: char) -> Proc {
                 4 => if !cram && !slow && r.chance(1, 3) { slow = true; 'T' } else { 'P' },
                 _ => *r.pick(&['P', 'O', 'C', 'S']),
             });
+            if quiet { let l = tests.len(); tests[l - 1] = 'N'; }
         }
-        docs.push(Doc { cram, sub, name, tests, bad_prepend: !cram && r.chance(1, 14) });
+        docs.push(Doc { cram, sub, name, tests, bad_prepend: !quiet && !cram && r.chance(1, 14) });
     }
     // identical (sub, name) pairs cannot exist on disk: move duplicates into numbered directories
     let mut seen: Vec<(String, String)> = vec![];
@@ -100,7 +104,9 @@ pub fn run_case(r: &mut Rng, scrut: &str, base: &Path, bash: &str) -> String {
     std::fs::create_dir_all(&tmpdir).unwrap();
     let flag = *r.pick(&['d', 'd', 'd', 'w', 'w', 'k']);
     let nproc = *r.pick(&[1usize, 1, 2, 3]);
-    let procs: Vec<Proc> = (0..nproc).map(|_| gen_proc(r, flag)).collect();
+    // several processes may be given the SAME work directory: each must only ever remove its own temp.*
+    let shared = flag == 'w' && nproc > 1 && r.chance(1, 2);
+    let procs: Vec<Proc> = (0..nproc).map(|_| gen_proc(r, flag, shared)).collect();
     let mut children = vec![];
     let mut descr = vec![];
     for (pi, p) in procs.iter().enumerate() {
@@ -119,7 +125,7 @@ pub fn run_case(r: &mut Rng, scrut: &str, base: &Path, bash: &str) -> String {
         if p.abort == 'u' { std::fs::write(pdir.join("zz-unparsable.md"), "```scrut\n$ true\n[1]\n[2]\n```\n").unwrap(); args.push("zz-unparsable.md".into()); }
         let mut cmd = Command::new(scrut);
         cmd.current_dir(&pdir).env("TMPDIR", &tmpdir).env("NO_COLOR", "1").env_remove("SCRUT_TEST").arg("test").arg("--log-level").arg("error").arg("-r").arg("json");
-        let wd = pdir.join("given-workdir");
+        let wd = if shared { root.join("shared-workdir") } else { pdir.join("given-workdir") };
         match p.flag {
             'w' => { std::fs::create_dir_all(&wd).unwrap(); std::fs::write(wd.join("pre-existing"), "keep me").unwrap(); cmd.arg("--work-directory").arg(&wd); }
             'k' => { cmd.arg("--keep-temporary-directories"); }
@@ -129,12 +135,15 @@ pub fn run_case(r: &mut Rng, scrut: &str, base: &Path, bash: &str) -> String {
         for a in &args { cmd.arg(a); }
         cmd.stdout(Stdio::null()).stderr(Stdio::null());
         children.push((cmd.spawn().expect("spawn scrut"), pdir.clone(), wd));
-        descr.push(format!("{}{}:{}", p.flag, p.abort, p.docs.iter().map(|d| format!("{}{}{}/{}/{}", if d.cram { 'c' } else { 'm' }, if d.bad_prepend { "!" } else { "" },
+        if shared { std::thread::sleep(std::time::Duration::from_millis(120)); }
+        descr.push(format!("{}{}:{}", if shared { 'W' } else { p.flag }, p.abort, p.docs.iter().map(|d| format!("{}{}{}/{}/{}", if d.cram { 'c' } else { 'm' }, if d.bad_prepend { "!" } else { "" },
             d.tests.iter().collect::<String>(), hex(d.sub.as_bytes()), hex(d.name.as_bytes()))).collect::<Vec<_>>().join(",")));
     }
     let mut results = vec![];
-    for (mut ch, pdir, wd) in children {
-        let st = ch.wait().expect("wait");
+    let mut done = vec![];
+    for (mut ch, pdir, wd) in children { let st = ch.wait().expect("wait"); done.push((st, pdir, wd)); }
+    // listings are taken when every process has ended (a shared work directory holds the temp.* of those still running)
+    for (st, pdir, wd) in done {
         let probes = std::fs::read_to_string(pdir.join("probes")).unwrap_or_default();
         let plines: Vec<String> = probes.lines().map(|l| hex(l.as_bytes())).collect();
         let wl = if wd.exists() { list(&wd).join(",") } else { "~".to_string() };
